@@ -369,8 +369,37 @@ def epsilon_fcfg(rng):
     return {"kind": "fcfg", "prods": prods, "via": rng.choice(["text", "api"])}
 
 
+def nested_fcfg(rng):
+    """agreement through a structure-valued feature: S -> X[g=?a] Y[g=?a]; X has a specific analysis
+    (g=[n=.,p=.]) and a more general one (g=[n=.], directly or through a unit production) over the same words, Y
+    pins p differently: which analysis reaches the chart first must not matter"""
+    n1 = rng.choice(ATOMS)
+    p1, p2 = rng.choice(ATOMS), rng.choice(ATOMS)
+    X, Y, P = rng.sample(["A", "B", "C", "D", "NP", "VP", "Pro", "X1", "Y2"], 3)
+    t = rng.choice("ab")
+    prods = [["S", {}, [["V", X, {"g": "?a"}], ["V", Y, {"g": "?a"}]]],
+             [X, {"g": {"n": n1, "p": p1}}, [["T", t]]]]
+    r = rng.random()
+    if r < 0.5:
+        prods.append([X, {"g": {"n": n1}}, [["V", P, {}]]])
+        prods.append([P, {}, [["T", t]]])
+    elif r < 0.8:
+        prods.append([X, {"g": {"n": n1}}, [["T", t]]])
+    else:
+        prods.append([X, {"g": {"p": p1}}, [["V", P, {}]]])
+        prods.append([P, {}, [["T", t]]])
+    prods.append([Y, {"g": {"n": n1, "p": p2}}, [["T", "b"]]])
+    prods.append([Y, {"g": {"n": rng.choice(ATOMS), "p": p1}}, [["T", "a"]]])
+    if rng.random() < 0.4:
+        prods.append([Y, {"g": {"n": "y" if n1 == "x" else "x"}}, [["T", "b"], ["T", "b"]]])
+    if rng.random() < 0.3:
+        prods.append(["S", {}, [["V", "S", {}], ["V", Y, {"g": {"p": p2}}]]])
+    rng.shuffle(prods)
+    return {"kind": "fcfg", "prods": prods, "via": rng.choice(["text", "text", "api"])}
+
+
 def ftxt(d):
-    return "[" + ",".join("%s=%s" % (k, v) for k, v in d.items()) + "]" if d else ""
+    return "[" + ",".join("%s=%s" % (k, ftxt(v) if isinstance(v, dict) else v) for k, v in d.items()) + "]" if d else ""
 
 
 def to_text(prods):
@@ -393,7 +422,9 @@ def build_fcfg(c):
         def mk(d):
             fs = FeatureStructure()
             for k, v in d.items():
-                if v.startswith("?"):
+                if isinstance(v, dict):
+                    fs.add_content(k, mk(v))
+                elif v.startswith("?"):
                     if v not in variables:
                         variables[v] = FeatureStructure()
                     fs.add_content(k, variables[v])
@@ -430,7 +461,7 @@ def plan(tier, rng, sl, nslices, stats):
         a, b = rand_spec(rng), rand_spec(rng)
         yield {"kind": "unify", "a": a, "b": b}
     for i in range(cfg["fcfg"]):
-        yield agreement_fcfg(rng) if i % 4 == 2 else (epsilon_fcfg(rng) if i % 4 == 3 else rand_fcfg(rng))
+        yield [rand_fcfg, nested_fcfg, agreement_fcfg, epsilon_fcfg, rand_fcfg][i % 5](rng)
 
 
 def run_case(c, stats):
